@@ -197,12 +197,29 @@ def mutations(tree, tags=(), enum_nonmember=None):
                             out.append(('dupkind', path, replace(tree, path, ('m', node[1], node[2] + ((kk, alt),)))))
                             out.append(('dupkind', path, replace(tree, path, ('m', node[1], ((kk, alt),) + node[2]))))
                     if kk[0] == 's' and '_' in kk[2]:
+                        # BOTH spellings of the key, the dashed one with a value of another kind, before and after
+                        dk2 = S(kk[1], kk[2].replace('_', '-'))
+                        for alt in ONE_PER_KIND[:3] + [vv]:
+                            out.append(('bothspell', path, replace(tree, path, ('m', node[1], node[2][:i] + ((dk2, alt),) + node[2][i:]))))
+                            out.append(('bothspell', path, replace(tree, path, ('m', node[1], node[2][:i + 1] + ((dk2, alt),) + node[2][i + 1:]))))
                         # dashed spelling of the key together with a value of another kind
                         dk = S(kk[1], kk[2].replace('_', '-'))
                         for alt in ONE_PER_KIND + [Q([])]:
                             if alt != vv:
                                 out.append(('dashkind', path, replace(tree, path, (
                                     'm', node[1], node[2][:i] + ((dk, alt),) + node[2][i + 1:]))))
+                # YAML merge keys: PyYAML flattens '<<' inside construct_mapping, i.e. after recognition and
+                # type-directed processing have seen the mapping
+                for i in range(len(node[2])):
+                    kk, vv = node[2][i]
+                    rest = node[2][:i] + node[2][i + 1:]
+                    out.append(('merge', path, replace(tree, path, ('m', node[1], rest + ((S('merge', '<<'), M([(kk, vv)])),)))))
+                    for alt in ONE_PER_KIND:
+                        if alt != vv:
+                            out.append(('mergekind', path, replace(tree, path, (
+                                'm', node[1], rest + ((S('merge', '<<'), M([(kk, alt)])),)))))
+                            out.append(('mergekind', path, replace(tree, path, (
+                                'm', node[1], node[2] + ((S('merge', '<<'), M([(S('str', 'qm'), alt)])),)))))
                 out.append(('addkey', path, replace(tree, path, ('m', node[1], node[2] + ((S('str', 'qq'), S('int', '1')),)))))
                 out.append(('complexkey', path, replace(tree, path, ('m', node[1], node[2] + ((Q([S('str', 'a')]), S('int', '1')),)))))
                 out.append(('intkey', path, replace(tree, path, ('m', node[1], node[2] + ((S('int', '3'), S('int', '1')),)))))
@@ -291,6 +308,13 @@ class Renderer:
         self.RD = RD
         self.loader_cls = loader_cls
 
+        # composing is done by plain PyYAML with the same resolver table, not by the loader under test: the
+        # harness must see the node graph the text denotes (aliases as shared nodes) whatever yatiml does to it
+        class PL(yaml.SafeLoader):
+            pass
+        PL.yaml_implicit_resolvers = {k: list(v) for k, v in table.items()}
+        self.PL = PL
+
     def serialize(self, node, **kw):
         return yaml.serialize(node, Dumper=self.RD, **kw)
 
@@ -312,7 +336,7 @@ class Renderer:
         return self.serialize(node, **kw)
 
     def compose(self, text):
-        ld = self.loader_cls(text)
+        ld = self.PL(text)
         try:
             return yaml.composer.Composer.get_single_node(ld)
         finally:
